@@ -820,7 +820,7 @@ class Check(DiffCheck):
     trusted_base = ['E2 hooks H-clock/H-idle (repo_patches/E2-hooks.diff)']
     partial_note = ('rwlock: single-vCPU tie only (E2); qrwlock: E2 + E3 (SC interleavings between OS threads, cv stand-ins); the cross-vCPU windows of rwlock::unlock (F18) are model-level findings (witness schedules in Coq) '
                     'that E2 cannot replay')
-    case_timeout = 1500
+    case_timeout = 7200     # thorough shards (E2 forked runs + 100 000 E3 schedules) take long on a loaded machine
 
     def __init__(self):
         self.runner_ml = e2lib.make_runner(self.id, ['ocaml/E2_lib.ml', 'ocaml/C06_run.ml'])
